@@ -91,6 +91,82 @@ def rule_bookkeeping(ck):
     ck.ob("table.thread_events", "TraceeCtl::add/inserts-stopped-tracee", any(re.search(r"HashMap::<K, V, S(, A)?>::insert$", c.name) for c in ad.calls()) and any(c.name == TE + "::new_stopped" for c in ad.calls()), "", ad.loc())
 
 
+def rule_status_consumed(ck):
+    """no lifecycle-carrying wait status is dropped"""
+    prog = ck.prog
+    ck.rule("mpt.status_consumed", "every wait status the tracer obtains (waitpid / Tracee::wait_one) reaches apply_new_status before it is overwritten or the function returns normally, unless it has been positively identified on that path as a status that carries no thread-lifecycle information: a signal-delivery stop (variant Stopped), the acknowledgement PTRACE_EVENT_STOP (PtraceEvent with event code 128 tested on that status), or Exited handled in place by TraceeCtl::remove. A swallowed CLONE / EXEC / EXIT event leaves the thread list different from the kernel's")
+    WS = "nix::sys::wait::WaitStatus"
+    vidx = {v: k for k, v in variant_names(prog, WS).items()}
+    sites = []
+    for p, f in prog.fns.items():
+        if not p.startswith(TR + "::"):
+            continue
+        for c in f.calls():
+            if c.name == TE + "::wait_one" or c.name.endswith("nix::sys::wait::waitpid"):
+                sites.append((f, c))
+    ck.floor("mpt.status_consumed", "wait sites in the tracer", len(sites), 6)
+    for key, (f, c) in keyed_sites(sites, lambda x: short(x[0].path)):
+        ck.saw(f)
+        carriers = taint_from(f, {c.dest[0]}) if c.dest and len(c.dest) == 1 else set()
+        carriers = {l for l in carriers if f.raw["locals"][l][0] == WS}
+        if not carriers:
+            ck.ob("mpt.status_consumed", f"{key}/status-local", False, "wait status not found", f.loc(c.bb))
+            continue
+        # where the status value comes into being: assignments of a carrier from the Ok / Continue payload
+        starts = set()
+        for i_, j_, pl, rv, sp in f.assigns():
+            if len(pl) == 1 and pl[0] in carriers and rv["r"] == "use":
+                src = op_place(rv["op"])
+                if src and src[0] not in carriers and c.bb in f.dominators().get(i_, ()) :
+                    starts.add(i_)
+        if c.dest[0] in carriers:
+            starts.add(c.target)
+        consume = {x.bb for x in f.calls() if x.name == TR + "::apply_new_status" and any(op_local(a) in carriers for a in x.args)}
+        ident = set()
+        discr_locals = {}
+        for i_, j_, pl, rv, sp in f.assigns():
+            if rv["r"] == "discr" and rv["p"][0] in carriers and len(rv["p"]) == 1 and len(pl) == 1:
+                discr_locals[pl[0]] = i_
+        for b, blk in enumerate(f.blocks):
+            t = blk["term"]
+            if t["t"] != "switch":
+                continue
+            pl = op_place(t["discr"])
+            if not pl:
+                continue
+            if pl[0] in carriers and "as:PtraceEvent" in pl and pl[-1] == ".2":
+                ident |= {x for v, x in t["arms"] if int(v) == 128}
+            if len(pl) == 1 and pl[0] in discr_locals:
+                for v, x in t["arms"]:
+                    if int(v) == vidx.get("Stopped"):
+                        ident.add(x)
+                    if int(v) == vidx.get("Exited"):
+                        # handled in place: TraceeCtl::remove follows on this arm (and only on this arm)
+                        rm = {r.bb for r in f.calls() if r.name == TC + "::remove"}
+                        here = reach_with_flags(f, x, stop=rm)
+                        other = set()
+                        for v2, x2 in t["arms"]:
+                            if x2 != x:
+                                other |= reach_with_flags(f, x2, stop=rm)
+                        other |= reach_with_flags(f, t["otherwise"], stop=rm)
+                        if (here & rm) - other:
+                            ident.add(x)
+        redefs = {x.bb for g, x in sites if g is f}
+        errs = f.error_exit_blocks()
+        rets = set(f.return_blocks())
+        bad_ret, bad_redef = set(), set()
+        for st in starts:
+            reach = reach_with_flags(f, st, avoid=consume | ident | errs, stop=redefs | rets)
+            bad_ret |= reach & rets
+            bad_redef |= (reach & redefs) - ({st} if st in redefs else set())
+        how = []
+        if bad_ret:
+            how.append("a normal return")
+        if bad_redef:
+            how.append("the next wait")
+        ck.ob("mpt.status_consumed", f"{key}/status-handled-or-identified", bool(starts) and not how, (f"{' and '.join(how)} reachable with the status neither handed to apply_new_status nor identified as Stopped / PTRACE_EVENT_STOP" if how else f"{len(consume)} hand-over site(s), {len(ident)} identifying arm(s)"), f.loc(c.bb), what="a ptrace event other than the awaited PTRACE_EVENT_STOP can be swallowed")
+
+
 def rule_ownership(ck):
     prog = ck.prog
     ck.rule("wmc.resume_owners", "raw ptrace resume/interrupt requests are issued only by their owners: cont in Tracee::continue, CallHelper::call_fn and Drop; step in Tracee::step and CallHelper::{jump,mmap,munmap}; interrupt in the group stop and Child::from_external; syscall in Tracer::single_step")
@@ -185,6 +261,7 @@ def rule_guard(ck):
 
 
 def run(ck):
+    rule_status_consumed(ck)
     rule_group_stop_first(ck)
     rule_bookkeeping(ck)
     rule_ownership(ck)
